@@ -202,7 +202,7 @@ fn leaderboard_step(len: usize) {
 //@ enc=OnExecuted::update_leaderboard (via verif_update_leaderboard), Vec::<LeaderEntry>::{remove, insert, truncate}, Iterator::{position, rposition}
 //@ bound=one inductive step from any board of exactly 0 entries satisfying the invariant (the six harnesses cover 0..=5); all u128 volumes; addresses from a 256-element universe (byte 0 symbolic, bytes 1..32 zero); trader on or off the board, new volume >= previous volume; one abstract other off-board participant; unwind 34 (32-byte Pubkey compare)
 //@ stubs=memmove (Vec::insert/remove tail shift) is the bounded one-element-shift model harness/periph/c/memmove16.c, preconditions asserted, validated against the memmove specification by c39_memmove_model_is_memmove; Vec built with capacity 6 (no reallocation)
-//@ args=--default-unwind,34,-Z,c-ffi,--c-lib,/verif/harness/periph/c/memmove16.c
+//@ args=--default-unwind,34,-Z,c-ffi,--c-lib,c/memmove16.c
 #[kani::proof]
 #[kani::solver(minisat)]
 fn c39_update_leaderboard_step_len0() {
@@ -213,7 +213,7 @@ fn c39_update_leaderboard_step_len0() {
 //@ enc=OnExecuted::update_leaderboard (via verif_update_leaderboard), Vec::<LeaderEntry>::{remove, insert, truncate}, Iterator::{position, rposition}
 //@ bound=one inductive step from any board of exactly 1 entries satisfying the invariant (the six harnesses cover 0..=5); all u128 volumes; addresses from a 256-element universe (byte 0 symbolic, bytes 1..32 zero); trader on or off the board, new volume >= previous volume; one abstract other off-board participant; unwind 34 (32-byte Pubkey compare)
 //@ stubs=memmove (Vec::insert/remove tail shift) is the bounded one-element-shift model harness/periph/c/memmove16.c, preconditions asserted, validated against the memmove specification by c39_memmove_model_is_memmove; Vec built with capacity 6 (no reallocation)
-//@ args=--default-unwind,34,-Z,c-ffi,--c-lib,/verif/harness/periph/c/memmove16.c
+//@ args=--default-unwind,34,-Z,c-ffi,--c-lib,c/memmove16.c
 #[kani::proof]
 #[kani::solver(minisat)]
 fn c39_update_leaderboard_step_len1() {
@@ -224,7 +224,7 @@ fn c39_update_leaderboard_step_len1() {
 //@ enc=OnExecuted::update_leaderboard (via verif_update_leaderboard), Vec::<LeaderEntry>::{remove, insert, truncate}, Iterator::{position, rposition}
 //@ bound=one inductive step from any board of exactly 2 entries satisfying the invariant (the six harnesses cover 0..=5); all u128 volumes; addresses from a 256-element universe (byte 0 symbolic, bytes 1..32 zero); trader on or off the board, new volume >= previous volume; one abstract other off-board participant; unwind 34 (32-byte Pubkey compare)
 //@ stubs=memmove (Vec::insert/remove tail shift) is the bounded one-element-shift model harness/periph/c/memmove16.c, preconditions asserted, validated against the memmove specification by c39_memmove_model_is_memmove; Vec built with capacity 6 (no reallocation)
-//@ args=--default-unwind,34,-Z,c-ffi,--c-lib,/verif/harness/periph/c/memmove16.c
+//@ args=--default-unwind,34,-Z,c-ffi,--c-lib,c/memmove16.c
 #[kani::proof]
 #[kani::solver(minisat)]
 fn c39_update_leaderboard_step_len2() {
@@ -235,7 +235,7 @@ fn c39_update_leaderboard_step_len2() {
 //@ enc=OnExecuted::update_leaderboard (via verif_update_leaderboard), Vec::<LeaderEntry>::{remove, insert, truncate}, Iterator::{position, rposition}
 //@ bound=one inductive step from any board of exactly 3 entries satisfying the invariant (the six harnesses cover 0..=5); all u128 volumes; addresses from a 256-element universe (byte 0 symbolic, bytes 1..32 zero); trader on or off the board, new volume >= previous volume; one abstract other off-board participant; unwind 34 (32-byte Pubkey compare)
 //@ stubs=memmove (Vec::insert/remove tail shift) is the bounded one-element-shift model harness/periph/c/memmove16.c, preconditions asserted, validated against the memmove specification by c39_memmove_model_is_memmove; Vec built with capacity 6 (no reallocation)
-//@ args=--default-unwind,34,-Z,c-ffi,--c-lib,/verif/harness/periph/c/memmove16.c
+//@ args=--default-unwind,34,-Z,c-ffi,--c-lib,c/memmove16.c
 #[kani::proof]
 #[kani::solver(minisat)]
 fn c39_update_leaderboard_step_len3() {
@@ -246,7 +246,7 @@ fn c39_update_leaderboard_step_len3() {
 //@ enc=OnExecuted::update_leaderboard (via verif_update_leaderboard), Vec::<LeaderEntry>::{remove, insert, truncate}, Iterator::{position, rposition}
 //@ bound=one inductive step from any board of exactly 4 entries satisfying the invariant (the six harnesses cover 0..=5); all u128 volumes; addresses from a 256-element universe (byte 0 symbolic, bytes 1..32 zero); trader on or off the board, new volume >= previous volume; one abstract other off-board participant; unwind 34 (32-byte Pubkey compare)
 //@ stubs=memmove (Vec::insert/remove tail shift) is the bounded one-element-shift model harness/periph/c/memmove16.c, preconditions asserted, validated against the memmove specification by c39_memmove_model_is_memmove; Vec built with capacity 6 (no reallocation)
-//@ args=--default-unwind,34,-Z,c-ffi,--c-lib,/verif/harness/periph/c/memmove16.c
+//@ args=--default-unwind,34,-Z,c-ffi,--c-lib,c/memmove16.c
 #[kani::proof]
 #[kani::solver(minisat)]
 fn c39_update_leaderboard_step_len4() {
@@ -257,7 +257,7 @@ fn c39_update_leaderboard_step_len4() {
 //@ enc=OnExecuted::update_leaderboard (via verif_update_leaderboard), Vec::<LeaderEntry>::{remove, insert, truncate}, Iterator::{position, rposition}
 //@ bound=one inductive step from any board of exactly 5 entries satisfying the invariant (the six harnesses cover 0..=5); all u128 volumes; addresses from a 256-element universe (byte 0 symbolic, bytes 1..32 zero); trader on or off the board, new volume >= previous volume; one abstract other off-board participant; unwind 34 (32-byte Pubkey compare)
 //@ stubs=memmove (Vec::insert/remove tail shift) is the bounded one-element-shift model harness/periph/c/memmove16.c, preconditions asserted, validated against the memmove specification by c39_memmove_model_is_memmove; Vec built with capacity 6 (no reallocation)
-//@ args=--default-unwind,34,-Z,c-ffi,--c-lib,/verif/harness/periph/c/memmove16.c
+//@ args=--default-unwind,34,-Z,c-ffi,--c-lib,c/memmove16.c
 #[kani::proof]
 #[kani::solver(minisat)]
 fn c39_update_leaderboard_step_len5() {
@@ -268,7 +268,7 @@ fn c39_update_leaderboard_step_len5() {
 //@ enc=(environment model check) c/memmove16.c memmove against the memmove specification, via core::ptr::copy
 //@ bound=one-element (48-byte) shifts up and down of any tail of a 6-element buffer of 16-byte aligned 48-byte elements, any start element and element count inside the buffer, arbitrary contents; unwind 34
 //@ stubs=this harness validates the memmove model used by the c39_update_leaderboard_step_* harnesses
-//@ args=--default-unwind,34,-Z,c-ffi,--c-lib,/verif/harness/periph/c/memmove16.c
+//@ args=--default-unwind,34,-Z,c-ffi,--c-lib,c/memmove16.c
 #[kani::proof]
 fn c39_memmove_model_is_memmove() {
     let mut a: [[u128; 3]; CAP] = kani::any();
